@@ -42,36 +42,23 @@ theorem C01_reencode (t : Ty) (v : Val) (hwf : wf t v = true) : encode t (norm t
 theorem C01_norm_wf (t : Ty) (v : Val) (hwf : wf t v = true) : wf t (norm t v) = true :=
   (norm_all.1 t v hwf).1
 
-/-
-Full statement (false of the code as it is, see `Witness/C01.lean`):
-    theorem C01_len_is_len (t v n bs) : encode t v = .ok (n, bs) → n = bs.length
-Proved: the same with the extra hypothesis `lenSafe t v` — no empty string in a `char` field and no fixed-width string longer
-than its width anywhere in the value (fields, defaults, array elements).  No `wf` hypothesis: every other assignable value,
-in or out of range, is covered.  What is missing is exactly the two defects C01-char-empty and C01-fixed-overlong.
--/
-theorem C01_len_is_len_partial (t : Ty) (v : Val) (n : Nat) (bs : Bytes)
-    (hsafe : lenSafe t v = true) (henc : encode t v = .ok (n, bs)) : n = bs.length :=
-  len_all.1 t v n bs hsafe henc
+/-- The length an encoder reports is the number of bytes it produced — for *every* value that encodes at all, in or out of
+    the round-trip domain (no `wf` hypothesis): over-long fixed strings, empty chars, out-of-domain text included. -/
+theorem C01_len_is_len (t : Ty) (v : Val) (n : Nat) (bs : Bytes) (henc : encode t v = .ok (n, bs)) : n = bs.length :=
+  len_all.1 t v n bs henc
 
-/-- On the round-trip domain the reported length is the number of bytes, without further hypotheses. -/
-theorem C01_len_is_len_wf (t : Ty) (v : Val) (n : Nat) (bs : Bytes)
-    (hwf : wf t v = true) (henc : encode t v = .ok (n, bs)) : n = bs.length := by
-  rw [encLayout_all.1 t v hwf] at henc
-  injection henc with henc
-  injection henc with h1 h2
-  subst h1 h2
-  rfl
+/-- A fixed-width field always occupies exactly its declared width (and reports it), whatever string is assigned. -/
+theorem C01_fixed_width (iso : Bool) (k : Nat) (rj : Bool) (v : Val) (n : Nat) (bs : Bytes)
+    (henc : encode (.fixed iso k rj) v = .ok (n, bs)) : bs.length = k ∧ n = k := by
+  have h1 := len_all.1 _ _ n bs henc
+  cases v <;> simp [encode, encFixed, bind_eq_ok] at henc
+  omega
 
-/-
-Full statement (false of the code as it is, see `Witness/C01.lean`):
-    theorem C01_fixed_width (iso k rj v n bs) : encode (.fixed iso k rj) v = .ok (n, bs) → bs.length = k
-Proved: for every string not longer than the width (any characters of the charset, no `wf` needed).
--/
-theorem C01_fixed_width_partial (iso : Bool) (k : Nat) (rj : Bool) (cs : Str) (n : Nat) (bs : Bytes)
-    (hlen : cs.length ≤ k) (henc : encode (.fixed iso k rj) (.str cs) = .ok (n, bs)) : bs.length = k ∧ n = k := by
-  have hs : lenSafe (.fixed iso k rj) (.str cs) = true := by simp [lenSafe, hlen]
-  have h1 := len_all.1 _ _ n bs hs henc
-  simp [encode, encFixed, bind_eq_ok] at henc
+/-- A char field always occupies exactly one byte. -/
+theorem C01_char_width (iso : Bool) (v : Val) (n : Nat) (bs : Bytes)
+    (henc : encode (.char iso) v = .ok (n, bs)) : bs.length = 1 ∧ n = 1 := by
+  have h1 := len_all.1 _ _ n bs henc
+  cases v <;> simp [encode, encChar, bind_eq_ok] at henc
   omega
 
 /-- Message level: the encoded message decodes — with unrelated bytes following — to the same class and the same record,
@@ -104,13 +91,15 @@ def exVal : Val :=
   .recd [(1, .int (-2)), (2, .str [97, 233]), (3, .recd [(2, .str [66])]), (4, .list [.recd [], .recd [(1, .str [104, 105])]])]
 
 example : wf exTy exVal = true := by decide
-example : lenSafe exTy exVal = true := by decide
 example : encode exTy exVal = .ok (17, [255, 254, 97, 233, 32, 32, 1, 7, 66, 0, 2, 0, 0, 2, 0, 104, 105]) := by decide
 example : read exTy (norm exTy exVal) [.field 3, .field 1] = .int 7 := by decide          -- a default read back
 example : read exTy (norm exTy exVal) [.field 4, .idx 1, .field 1] = .text [104, 105] := by decide
 example : wfMsg { ind := 65, cls := 0, fs := .cons 1 (.int 8 false true) .none .nil } (.recd [(1, .int 18446744073709551615)]) = true := by
   decide
 example : wf (.optrec (.cons 1 .bool .none .nil)) (.recd []) = true := by decide           -- absent optional record
+example : wf (.record .nil) (.recd []) = true := by decide                                   -- a message body without fields
+example : wf (.fixed true 3 false) (.str [97, 160]) = true := by decide                    -- NBSP at the end of a fixed string
+example : encode (.fixed false 3 false) (.str [97, 98, 99, 100]) = .ok (3, [97, 98, 99]) := by decide   -- over-long: truncated
 example : wf (.int 8 true false) (.int (-9223372036854775808)) = true := by decide
 
 end NasdaqModel.Props.C01
